@@ -70,7 +70,7 @@ def run(ctx: Ctx) -> None:
             if run_n is not None:
                 ctx.count("C07.no_ego_pose_runs_compared")
                 for k, (a, b) in enumerate(zip(dig_e, dig_n)):
-                    for part in ("results", "critical_gt", "tp", "fp", "fn", "tn", "metrics"):
+                    for part in ("results", "critical_gt", "tp", "fp", "fn", "tn", "metrics", "ranges"):
                         d = compare.diff(a[part], b[part], TOL)
                         if d is not None:
                             ctx.violation(f"C07/ego_frame_run_depends_on_registered_ego_pose:{part}", dict(scn.info, frame=k, first_difference=d[:400]), tap="comparator")
@@ -82,7 +82,7 @@ def run(ctx: Ctx) -> None:
             removed = tp = False
             for k, (a, b) in enumerate(zip(dig_e, dig_m)):
                 ctx.count("C07.frames_compared")
-                for part in ("results", "critical_gt", "tp", "fp", "fn", "tn", "metrics"):
+                for part in ("results", "critical_gt", "tp", "fp", "fn", "tn", "metrics", "ranges"):
                     d = compare.diff(a[part], b[part], TOL)
                     if d is not None:
                         sub = part
@@ -94,6 +94,8 @@ def run(ctx: Ctx) -> None:
                                 sub = "pairing"
                             else:
                                 sub = "pair_scores"
+                        elif part == "ranges":
+                            sub = "range_filter_quantities"
                         elif part == "metrics":
                             sub = "metrics_tracking" if "/tracking" in d else "metrics_detection"
                         ctx.violation(f"C07/ego_and_map_runs_differ:{sub}", dict(scn.info, frame=k, first_difference=d[:400], negate_q=negate, margin=margin), tap="comparator")
@@ -165,7 +167,7 @@ def follower_pairs(ctx: Ctx, n: int) -> None:
                 dig_m = [compare.frame_digest(run_m.add(k)) for k in range(nF)]
             ctx.count("C07.follower_pairs_compared")
             for k, (a, b) in enumerate(zip(dig_e, dig_m)):
-                for part in ("results", "critical_gt", "tp", "fp", "fn", "tn", "metrics"):
+                for part in ("results", "critical_gt", "tp", "fp", "fn", "tn", "metrics", "ranges"):
                     d = compare.diff(a[part], b[part], TOL)
                     if d is not None:
                         ctx.violation(f"C07/ego_and_map_runs_differ:followers:{part}", dict(scn.info, frame=k, first_difference=d[:400]), tap="comparator")
